@@ -17,7 +17,8 @@ Definition src_leader_len : option rexpr := Some (RBin OShr (RVar "combined") (R
 Definition src_leader_header_bit : option rexpr := Some (RBin OEq (RBin OAnd (RVar "combined") (RLit 1)) (RLit 1)).
 (* oplog/mod.rs: ((combined & 2) == 2) *)
 Definition src_leader_partial_bit : option rexpr := Some (RBin OEq (RBin OAnd (RVar "combined") (RLit 2)) (RLit 2)).
-Definition src_leader_no_frame : option rexpr := None.   (* oplog/mod.rs *)
+(* oplog/mod.rs: (((combined >> 2) == 0) || (data_buff.len() < (combined >> 2))) *)
+Definition src_leader_no_frame : option rexpr := Some (RBin OLOr (RBin OEq (RBin OShr (RVar "combined") (RLit 2)) (RLit 0)) (RBin OLt (RVar "data_buff.len()") (RBin OShr (RVar "combined") (RLit 2)))).
 (* oplog/mod.rs: CRC_SIZE *)
 Definition src_leader_zone_lo : option rexpr := Some (RVar "CRC_SIZE").
 (* oplog/mod.rs: (LEADER_SIZE + (combined >> 2)) *)
